@@ -114,7 +114,9 @@ def mapping(names, log, state):
         pass
     try:
         import logomaker
-        m.append((logomaker, ModuleProxy(logomaker, {"alignment_to_matrix": alignment_to_matrix}, log)))
+        from models.plot_model import Recorder
+        m.append((logomaker, ModuleProxy(logomaker, {"alignment_to_matrix": alignment_to_matrix, "Logo": Recorder("lm.Logo"),
+                                                     "Glyph": Recorder("lm.Glyph")}, log)))
     except ImportError:
         pass
     import tqdm.auto
